@@ -371,7 +371,7 @@ Proof.
     unfold bits_of_byte at 1. cbn [app]. rewrite IH by (simpl in Hk; lia). reflexivity.
 Qed.
 
-Lemma firstn_flat_map_partial (data : list Z) : forall k r last,
+Lemma firstn_flat_map_frag (data : list Z) : forall k r last,
   nth_error data k = Some last -> (r < 8)%nat ->
   firstn (8 * k + r) (flat_map bits_of_byte data)
   = flat_map bits_of_byte (firstn k data) ++ firstn r (bits_of_byte last).
@@ -429,7 +429,7 @@ Proof.
       { apply nth_error_In in E2. rewrite forallb_forall in Hbytes. specialize (Hbytes _ E2).
         unfold is_byteb in Hbytes. lia. }
       replace (Z.to_nat n) with (8 * Z.to_nat (n / 8) + Z.to_nat (n mod 8))%nat by lia.
-      rewrite (firstn_flat_map_partial data _ _ last E2) by lia.
+      rewrite (firstn_flat_map_frag data _ _ last E2) by lia.
       rewrite pack_bits_bytes by (apply forallb_firstn; exact Hbytes).
       rewrite pack_partial_byte by lia. unfold bit_mask. cbn [bind].
       destruct (fixed_size sz) as [s|].
